@@ -698,6 +698,19 @@ def _read(ctx, f):
                   and b.get(pp[0]) == ("elem", X[3][0][1])
                   and b.get(pp[1]) == ("param", "decoy_prefix"))
             FRAMES = cat[0][0]
+    if FRAMES is not None:
+        kw_ = dict(FRAMES[3])
+        keeps_all = kw_.get("join", ("const", "outer")) == (
+            "const", "outer") and kw_.get("axis", ("const", 0)) in (
+            ("const", 0), ("const", "index"))
+        ctx.check(keeps_all, "C20c-every-score-column-kept", f,
+                  "the per-file frames are stacked row-wise with the union "
+                  "of their columns",
+                  f"pd.concat(..., join={show(kw_.get('join', ('const', 'outer')), 20)}"
+                  f", axis={show(kw_.get('axis', ('const', 0)), 20)}): a "
+                  "search score that one of the files lacks disappears for "
+                  "every hit (and the Percolator-output check no longer "
+                  "sees the columns it looks for)", node=cat[0][1])
     ctx.check(ok, "C20c-files-concatenated", f,
               "every file is parsed with the caller's decoy prefix and the "
               "results are concatenated in order", why, node=f.node)
